@@ -717,6 +717,39 @@ class TermEngine:
             if k not in seen:
                 seen.add(k)
                 out.append(f)
+        # a test of a gated Boolean (`let ok = !a && !b; if ok`): γ(a; 0→Not(b), else→false) being true pins the
+        # alternative it came through (a is false) and the value of that alternative (Not(b) is true, so b is false)
+        work = list(out)
+        rounds = 0
+        while work and rounds < 64:
+            rounds += 1
+            c, v, vm, d = work.pop()
+            if vm or not isinstance(c, tuple) or not c:
+                continue
+            truthy = v != "0"
+            new = []
+            if c[0] == "un" and c[1] == "Not":
+                new.append((c[2], "0" if truthy else ("not", ("0",)), None, d))
+            elif c[0] == "gamma" and len(c[2]) == 2:
+                cands = []
+                for lab, alt in c[2]:
+                    if isinstance(alt, tuple) and alt and alt[0] == "const" and str(alt[2]) in ("0", "1", "false", "true"):
+                        if (str(alt[2]) in ("1", "true")) == truthy:
+                            cands.append((lab, alt))
+                    else:
+                        cands.append((lab, alt))
+                if len(cands) == 1:
+                    lab, alt = cands[0]
+                    if isinstance(lab, str) or (isinstance(lab, tuple) and lab and lab[0] == "not"):
+                        new.append((c[1], lab, self._discr_variants.get(c[1]), d))
+                    if not (isinstance(alt, tuple) and alt and alt[0] == "const"):
+                        new.append((alt, v, None, d))
+            for f in new:
+                k = (repr(f[0]), repr(f[1]))
+                if k not in seen:
+                    seen.add(k)
+                    out.append(f)
+                    work.append(f)
         return out
 
 
